@@ -39,11 +39,11 @@ ASSUMPTIONS = [
     "citations of Python source files in diagnostics (parser.py:NNN) are not source-line citations",
 ]
 FLOORS = {
-    "prefix": 0.20,
-    "out_of_domain": 0.10,
-    "mutation": 0.10,
+    "prefix": 0.15,
+    "out_of_domain": 0.05,
+    "mutation": 0.05,
     "noise": 0.02,
-    "exotic_separator": 0.05,
+    "exotic_separator": 0.02,
     "result_err": 0.30,
     "result_ok": 0.02,
 }
